@@ -153,8 +153,14 @@ def check(db, rep):
     rep.explanation = ('Reject => critical error as a whole-program loudness fixpoint over the auditors (every refusing return is reported or propagates a loud callee), '
                        'error positions rooted at the visited node, scope pairing, result plumbing and the constituent-kind tables. The typing rules themselves are not decided.')
     r1 = rep.rule('r1', 'LOUD-REJECT: every refusing return in the auditors is preceded by OnError or propagates the refusal of a loud callee', 100)
+    loud_rule(db, rep, r1, AUDITORS, 'the expression is rejected with an empty error list')
+    _rest(db, rep)
+
+
+def loud_rule(db, rep, r1, classes, consequence, prefix='', defensive_variant_tests=False):
+    defensive = []
     fns = {}
-    for cls in AUDITORS:
+    for cls in classes:
         for f in db.methods_of(cls):
             if f.has_cfg():
                 fns[f.name + '#' + f.mn] = f
@@ -184,6 +190,17 @@ def check(db, rep):
                 for pol, to in ((True, t), (False, fl)):
                     if to is None:
                         continue
+                    if defensive_variant_tests:
+                        # `!std::holds_alternative<X>(value)` on an evaluation result: a defensive test that type soundness makes unreachable
+                        c0 = f.strip(c)
+                        while c0 is not None and c0['k'] == 'BinaryOperator' and c0.get('op') in ('||', '&&'):
+                            c0 = f.strip(f.children(c0)[-1])
+                        c1, p1 = normalise_cond(f, c0, pol)
+                        if c1 is not None and c1['k'] == 'CallExpr' and c1.get('cs') == 'std::holds_alternative' and p1 is False:
+                            blocked[(end, (to, 0))] = (True, 'defensive variant test')
+                            if f.loc(c1) not in defensive:
+                                defensive.append(f.loc(c1))
+                            continue
                     cal = _edge_callee(db, f, c, pol)
                     if cal is None:
                         continue
@@ -240,20 +257,49 @@ def check(db, rep):
             if loud[k] != ok:
                 loud[k] = ok
                 changed = True
+    # a function whose falsy result no caller propagates (and that is not a rule or an entry point) answers a question, it does not refuse
+    propagated = set()
+    tested = set()
+    for k, f in fns.items():
+        refusing = [p for p, r in _refusing(f)]
+        for bid, c, t, fl in cond_edges(f):
+            for pol, to in ((True, t), (False, fl)):
+                cal = _edge_callee(db, f, c, pol) if to is not None else None
+                if cal is not None:
+                    tested.add(cal.name + '#' + cal.mn)
+                if cal is not None and any(p in f.reach((to, 0)) and not _passes_other_cond(f, (to, 0), p) for p in refusing):
+                    propagated.add(cal.name + '#' + cal.mn)
     n_ret = 0
     for k, f in sorted(fns.items()):
-        for r, kind, why in details.get(k, []):
+        short = f.name.split('::')[-1]
+        if k in tested and k not in propagated and not (short.startswith('Vi') and short[2:3].isupper()) and f.rec.get('access') != 'public':
+            continue
+        seen_inst = {}
+        for r, kind, why in sorted(details.get(k, []), key=lambda d: (d[0].get('line', 0), d[0].get('col', 0))):
             n_ret += 1
-            inst = '%s::%s@%s' % (f.cls.split('::')[-1], f.name.split('::')[-1], (r.get('txt', '') + '|' + ' '.join(c.get('txt', '')[:40] for c, pol in dominating_guards(f, f.position_of(r))[:1]))[:70])
+            inst = '%s::%s@%s' % (f.cls.split('::')[-1], f.name.split('::')[-1], (r.get('txt', '') + '|' + ' '.join(c.get('txt', '')[:40] for c, pol in sorted(dominating_guards(f, f.position_of(r)), key=lambda g: (g[0].get('line', 0), g[0].get('col', 0)))[-1:]))[:70])
+            seen_inst[inst] = seen_inst.get(inst, 0) + 1
+            if seen_inst[inst] > 1:
+                inst += '#%d' % seen_inst[inst]
             if kind == 'cascade':
                 r1.ok(inst, 'inherits: ' + why, f.loc(r), nontrivial=False)
             elif kind == 'silent':
-                r1.violation(inst, f.loc(r), '`%s` refuses without a logged error (%s): the expression is rejected with an empty error list' % (r.get('txt', ''), why))
+                r1.violation(inst, f.loc(r), '`%s` refuses without a logged error (%s): %s' % (r.get('txt', ''), why, consequence))
             else:
                 r1.ok(inst, kind + (': ' + why if why else ''), f.loc(r), nontrivial=(kind != 'reported'))
-    rep.note('refusing_returns', n_ret)
-    rep.note('infeasible_branches_proved_from_callers', dead_used)
-    rep.note('auditor_methods', len(fns))
+    rep.note(prefix + 'refusing_returns', n_ret)
+    rep.note(prefix + 'infeasible_branches_proved_from_callers', dead_used)
+    rep.note(prefix + 'methods', len(fns))
+    if defensive_variant_tests:
+        rep.note(prefix + 'defensive_variant_tests_assumed_unreachable', defensive)
+
+
+def _rest(db, rep):
+    fns = {}
+    for cls in AUDITORS:
+        for f in db.methods_of(cls):
+            if f.has_cfg():
+                fns[f.name + '#' + f.mn] = f
 
     # ------------------------------------------------------------------ r2
     r2 = rep.rule('r2', 'POSITION: the position of every reported error is derived from the visited node or a position parameter', 40)
